@@ -20,15 +20,16 @@
 (*                  made after close() waits for ever                       *)
 (*                                                                         *)
 (* Every action is followed by "run until nothing is ready".  A race        *)
-(* Race(a, j) = reconnect(), j loop callbacks, then call a: the spec        *)
-(* allows exactly the two serial orders (a ; reconnect) and (reconnect ; a) *)
-(* - a second reconnect() may also be absorbed by the one under way.        *)
+(* Race(f, a, j) = call f (reconnect() or close()), j loop iterations, then *)
+(* call a: the spec allows exactly the two serial orders (a ; f) and        *)
+(* (f ; a) - a second reconnect() may also be absorbed by the one under way *)
 (* The counters are what the application and the transports observe.        *)
 (***************************************************************************)
 EXTENDS Naturals, Sequences, FiniteSets, TLC
 
-CONSTANTS MaxReconnects, MaxCuts, MaxProbes, MaxRaces, MaxTicks,
-          Js          \* numbers of loop callbacks after which the racing call is made
+CONSTANTS MaxReconnects, MaxCuts, MaxProbes, MaxPends, MaxRaces, MaxTicks,
+          Firsts,     \* the calls a race starts with: subset of {"reconnect", "close"}
+          Js          \* numbers of loop iterations after which the racing call is made
 
 VARIABLE k
 vars == <<k>>
@@ -37,47 +38,59 @@ Init == k = [gen |-> 1, up |-> TRUE, appClosed |-> FALSE, topen |-> TRUE,
              closeCbs |-> 0,      \* on_close callbacks
              tclosed |-> 0,       \* transports closed by the client
              answered |-> 0,      \* requests that got a response or a connection error
-             hung |-> 0,          \* requests still waiting
+             hung |-> 0,          \* requests still waiting although their connection is gone
+             pending |-> 0,       \* requests waiting for a response the peer has not given yet
+             pends |-> 0,
              reconnects |-> 0, cuts |-> 0, probes |-> 0, races |-> 0, ticks |-> 0]
 
 ProbeF(s) == IF s.up THEN [s EXCEPT !.answered = @ + 1, !.probes = @ + 1]
              ELSE [s EXCEPT !.hung = @ + 1, !.probes = @ + 1]
 
-CutF(s) == IF s.up THEN [s EXCEPT !.up = FALSE, !.topen = FALSE, !.closeCbs = @ + 1, !.tclosed = @ + 1, !.cuts = @ + 1]
+(* a request the peer does not answer: it is pending until its connection ends, then it fails *)
+PendF(s) == IF s.up THEN [s EXCEPT !.pending = @ + 1, !.pends = @ + 1]
+            ELSE [s EXCEPT !.hung = @ + 1, !.pends = @ + 1]
+
+CutF(s) == IF s.up THEN [s EXCEPT !.up = FALSE, !.topen = FALSE, !.closeCbs = @ + 1, !.tclosed = @ + 1, !.cuts = @ + 1,
+                                  !.answered = @ + s.pending, !.pending = 0]
            ELSE [s EXCEPT !.cuts = @ + 1]
 
 ReconnF(s) == IF s.appClosed THEN [s EXCEPT !.reconnects = @ + 1]
               ELSE [s EXCEPT !.gen = @ + 1, !.up = TRUE, !.topen = TRUE,
                              !.closeCbs = IF s.up THEN @ + 1 ELSE @,
                              !.tclosed = IF s.topen THEN @ + 1 ELSE @,
-                             !.answered = @ + s.hung, !.hung = 0, !.reconnects = @ + 1]
+                             !.answered = @ + s.hung + s.pending, !.hung = 0, !.pending = 0, !.reconnects = @ + 1]
 
 CloseF(s) == IF s.appClosed THEN s
              ELSE [s EXCEPT !.appClosed = TRUE, !.up = FALSE, !.topen = FALSE,
                             !.closeCbs = IF s.up THEN @ + 1 ELSE @,
                             !.tclosed = IF s.topen THEN @ + 1 ELSE @,
-                            !.answered = @ + s.hung, !.hung = 0]
+                            !.answered = @ + s.hung + s.pending, !.hung = 0, !.pending = 0]
 
 Probe == k.probes < MaxProbes /\ k' = ProbeF(k)
+Pend == k.pends < MaxPends /\ k' = PendF(k)
 Cut == k.cuts < MaxCuts /\ k.up /\ k' = CutF(k)
 Reconnect == k.reconnects < MaxReconnects /\ k' = ReconnF(k)
 Close == ~k.appClosed /\ k' = CloseF(k)
 Tick == k.ticks < MaxTicks /\ k' = [k EXCEPT !.ticks = @ + 1]        \* a keep-alive period passes
 
-F(a, s) == CASE a = "probe" -> ProbeF(s) [] a = "cut" -> CutF(s) [] a = "close" -> CloseF(s) [] a = "reconnect" -> ReconnF(s)
+F(a, s) == CASE a = "probe" -> ProbeF(s) [] a = "pend" -> PendF(s) [] a = "cut" -> CutF(s) [] a = "close" -> CloseF(s)
+             [] a = "reconnect" -> ReconnF(s)
 
-Race(a, j) ==
-    /\ k.races < MaxRaces /\ k.reconnects < MaxReconnects /\ ~k.appClosed
+Race(f, a, j) ==
+    /\ k.races < MaxRaces /\ ~k.appClosed /\ (f # a \/ f = "reconnect")
+    /\ (f = "reconnect" \/ a = "reconnect" => k.reconnects < MaxReconnects)
+    /\ (f = "reconnect" /\ a = "reconnect" => k.reconnects + 1 < MaxReconnects)
     /\ (a = "probe" => k.probes < MaxProbes)
+    /\ (a = "pend" => k.pends < MaxPends)
     /\ (a = "cut" => k.cuts < MaxCuts /\ k.up)
-    /\ (a = "reconnect" => k.reconnects + 1 < MaxReconnects)
     /\ LET r == [k EXCEPT !.races = @ + 1]
-           first == ReconnF(F(a, r))                \* the racing call took effect before the reconnect did
-           second == F(a, ReconnF(r))               \* ... or after it
+           first == F(f, F(a, r))                   \* the racing call took effect before f did
+           second == F(a, F(f, r))                  \* ... or after it
            absorbed == [ReconnF(r) EXCEPT !.reconnects = @ + 1]      \* a second reconnect() absorbed by the one under way
-       IN k' \in (IF a = "reconnect" THEN {second, absorbed} ELSE {first, second})
+       IN k' \in (IF f = "reconnect" /\ a = "reconnect" THEN {second, absorbed} ELSE {first, second})
 
-Next == Probe \/ Cut \/ Reconnect \/ Close \/ Tick \/ \E a \in {"probe", "cut", "close", "reconnect"}, j \in Js : Race(a, j)
+Next == Probe \/ Pend \/ Cut \/ Reconnect \/ Close \/ Tick
+        \/ \E f \in Firsts, a \in {"probe", "pend", "cut", "close", "reconnect"}, j \in Js : Race(f, a, j)
 Spec == Init /\ [][Next]_vars
 
 ----------------------------------------------------------------------------
@@ -88,7 +101,9 @@ OldTransportsClosed == k.tclosed >= k.gen - 1 /\ (k.topen => k.tclosed = k.gen -
 (* C11 / C17: a request waits only on a connection that is dead and has not been replaced or closed yet ... *)
 WaitsOnlyOnDeadConnection == k.hung > 0 => ~k.up
 (* ... AS IMPLEMENTED also for ever after close(): kept visible *)
-Accounted == k.answered + k.hung = k.probes
+Accounted == k.answered + k.hung + k.pending = k.probes + k.pends
+(* C11 / C17: whatever was pending when its connection ended has been failed *)
+NothingPendingOnDeadConnection == ~k.up => k.pending = 0
 (* C11: a closed client stays closed *)
 ClosedStaysClosed == k.appClosed => ~k.up
 TypeOK == k.gen >= 1
